@@ -1,6 +1,7 @@
 package props
 
 import (
+	"context"
 	"encoding/json"
 	"fmt"
 	"strings"
@@ -217,7 +218,7 @@ func c08Validate(a *selAST) (sig, what string, wellFormed bool) {
 
 // c08EndToEnd sends a New request with the selector to a real responder with
 // default options and reads the status on the wire.
-func c08EndToEnd(a *selAST) (sig, what string) {
+func c08EndToEnd(a *selAST, hook string) (sig, what string) {
 	n := a.node()
 	d := harness.Build(harness.Shape{Blocks: []harness.BlockSpec{{}}}, "")
 	var statuses []graphsync.ResponseStatusCode
@@ -229,8 +230,28 @@ func c08EndToEnd(a *selAST) (sig, what string) {
 		r := f.AddNode(peer.ID("R"), rs)
 		q := f.AddScript(peer.ID("Q"))
 		id := harness.MkID(1)
+		// an application hook that does anything but validate leaves the verdict to the default validator
+		switch hook {
+		case "pause":
+			r.GS.RegisterIncomingRequestHook(func(p peer.ID, rd graphsync.RequestData, ha graphsync.IncomingRequestHookActions) {
+				ha.PauseResponse()
+			})
+		case "ext":
+			r.GS.RegisterIncomingRequestHook(func(p peer.ID, rd graphsync.RequestData, ha graphsync.IncomingRequestHookActions) {
+				ha.SendExtensionData(graphsync.ExtensionData{Name: "app/x", Data: basicnode.NewInt(1)})
+			})
+		case "links":
+			r.GS.RegisterIncomingRequestHook(func(p peer.ID, rd graphsync.RequestData, ha graphsync.IncomingRequestHookActions) {
+				ha.MaxLinks(5)
+			})
+		}
 		q.Say(r.ID, harness.ReqMsg(gsmsg.NewRequest(id, d.Root.(cidlink.Link).Cid, n, graphsync.Priority(0))))
 		vsched.Quiesce()
+		if hook == "pause" {
+			// resuming must not serve what should have been rejected
+			_ = r.GS.Unpause(context.Background(), id)
+			vsched.Quiesce()
+		}
 		for _, p := range q.ResponsesFor(r.ID, id) {
 			statuses = append(statuses, p.Status)
 		}
@@ -250,14 +271,19 @@ func c08EndToEnd(a *selAST) (sig, what string) {
 	if a.hasKind("~") {
 		kind = "under-interpret-as"
 	}
-	if len(statuses) == 0 {
-		return "no-response", fmt.Sprintf("selector %s: responder sent no response", a)
+	with := ""
+	if hook != "" {
+		kind += "/hook-" + hook
+		with = " (an incoming-request hook that only does `" + hook + "` is registered)"
 	}
-	if a.bad() && !rejected {
-		return "unbounded-or-too-deep-recursion-accepted/" + kind, fmt.Sprintf("selector %s: responder with default settings answered %v instead of rejecting", a, statuses)
+	if len(statuses) == 0 {
+		return "no-response", fmt.Sprintf("selector %s: responder sent no response%s", a, with)
+	}
+	if a.bad() && (!rejected || len(statuses) != 1) {
+		return "unbounded-or-too-deep-recursion-accepted/" + kind, fmt.Sprintf("selector %s: responder with default settings answered %v instead of only rejecting%s", a, statuses, with)
 	}
 	if !a.bad() && rejected {
-		return "bounded-recursion-rejected/" + kind, fmt.Sprintf("selector %s: responder with default settings rejected a request whose recursions are all <= 100", a)
+		return "bounded-recursion-rejected/" + kind, fmt.Sprintf("selector %s: responder with default settings rejected a request whose recursions are all <= 100%s", a, with)
 	}
 	return "", ""
 }
@@ -314,6 +340,7 @@ type c08Case struct {
 	Depth int    `json:"depth"`
 	Index int    `json:"index"`
 	E2E   bool   `json:"end_to_end"`
+	Hook  string `json:"hook,omitempty"`
 	Spec  string `json:"spec"`
 }
 
@@ -333,12 +360,14 @@ func runC08(c *core.Ctx) {
 		if _, _, wf := c08Validate(a); !wf {
 			continue
 		}
-		sig, what := c08EndToEnd(a)
-		c.Res.Evaluations++
-		c.Count("end_to_end_requests", 1)
-		c.Class(fmt.Sprintf("e2e bad=%v interpretAs=%v", a.bad(), a.hasKind("~")))
-		if sig != "" {
-			c.Violate(sig, what, c08Case{3, di, true, a.String()})
+		for _, hook := range []string{"", "pause", "ext", "links"} {
+			sig, what := c08EndToEnd(a, hook)
+			c.Res.Evaluations++
+			c.Count("end_to_end_requests", 1)
+			c.Class(fmt.Sprintf("e2e bad=%v interpretAs=%v hook=%s", a.bad(), a.hasKind("~"), hook))
+			if sig != "" {
+				c.Violate(sig, what, c08Case{3, di, true, hook, a.String()})
+			}
 		}
 	}
 	// deep chains: a recursion at the bottom of 1..maxChain nested unary clauses of one kind
@@ -385,7 +414,7 @@ func runC08(c *core.Ctx) {
 			c.Sample(a.String())
 		}
 		if sig != "" {
-			c.Violate(sig, what, c08Case{depth, di, false, a.String()})
+			c.Violate(sig, what, c08Case{depth, di, false, "", a.String()})
 		}
 	}
 	c.Count("specs_generated", int64(len(all)))
@@ -422,7 +451,7 @@ func init() {
 			a := all[cs.Index]
 			var sig, what string
 			if cs.E2E {
-				sig, what = c08EndToEnd(a)
+				sig, what = c08EndToEnd(a, cs.Hook)
 			} else {
 				sig, what, _ = c08Validate(a)
 			}
